@@ -815,3 +815,73 @@ pub fn read_all(mut r: impl Read) -> Vec<u8> {
     let _ = r.read_to_end(&mut v);
     v
 }
+
+/// Greedy byte-level minimiser for a saved failing case: deletes chunks and
+/// zeroes / halves bytes while the failure signature stays the same.
+pub fn shrink_file(check: &dyn Check, path: &Path) -> i32 {
+    install_panic_hook();
+    check.init();
+    let text = std::fs::read_to_string(path).expect("read replay");
+    let v: Value = serde_json::from_str(&text).expect("replay json");
+    let mut choice = unhex(v["choice_hex"].as_str().expect("choice_hex"));
+    let mut w = None;
+    let mut inconc = vec![];
+    let sig0 = match eval(check, &mut w, &choice, false, &mut inconc).verdict {
+        Verdict::Fail { sig, .. } => sig,
+        _ => {
+            println!("case does not fail");
+            return 0;
+        }
+    };
+    let mut fails = |c: &[u8], w: &mut Option<Worker>| -> bool { matches!(eval(check, w, c, false, &mut vec![]).verdict, Verdict::Fail { ref sig, .. } if *sig == sig0) };
+    let mut improved = true;
+    let mut rounds = 0;
+    while improved && rounds < 12 {
+        improved = false;
+        rounds += 1;
+        // delete chunks
+        let mut size = (choice.len() / 2).max(1);
+        while size >= 1 {
+            let mut i = 0;
+            while i + size <= choice.len() {
+                let mut c = choice.clone();
+                c.drain(i..i + size);
+                if fails(&c, &mut w) {
+                    choice = c;
+                    improved = true;
+                } else {
+                    i += size;
+                }
+            }
+            if size == 1 {
+                break;
+            }
+            size /= 2;
+        }
+        // simplify bytes
+        for i in 0..choice.len() {
+            for cand in [0u8, choice[i] / 2, choice[i].saturating_sub(1)] {
+                if cand < choice[i] {
+                    let mut c = choice.clone();
+                    c[i] = cand;
+                    if fails(&c, &mut w) {
+                        choice = c;
+                        improved = true;
+                        break;
+                    }
+                }
+            }
+        }
+    }
+    if let Some(mut w) = w {
+        w.kill();
+    }
+    let o = eval(check, &mut None, &choice, true, &mut inconc);
+    let (sig, detail) = match &o.verdict {
+        Verdict::Fail { sig, detail } => (sig.clone(), detail.clone()),
+        _ => (sig0.clone(), String::new()),
+    };
+    let out = write_replay(check.id(), &format!("min-{:016x}", fnv(&choice)), &choice, &sig, &detail, o.describe);
+    println!("minimised to {} choice bytes: {}", choice.len(), out.display());
+    0
+}
